@@ -503,10 +503,54 @@ def _check_history(res, i, seq):
             return
 
 
+def _check_reorder(res, i):
+    """the array forms (law_of_mass_action_rates -> dCdt_list) before and after the substances of the SAME system object
+    are re-ordered in place: concentrations and derivatives follow the current substance order"""
+    from collections import OrderedDict
+    from chempy import Reaction, ReactionSystem, Substance
+    from chempy.kinetics.ode import law_of_mass_action_rates, dCdt_list
+
+    rts = [POOL3[i], POOL3[(i + 1) % len(POOL3)]]
+    ks = [7, 17]
+    conc = {s: ATOM[s] for s in "ABC"}
+    case = dict(layer="H", i=i, seq=["reorder"])
+    res.states += 1
+    res.transitions += 3
+    res.nontrivial += 1
+    try:
+        rxns = []
+        for rt, k in zip(rts, ks):
+            reac, prod, ir, ip = M.rt_dicts(rt)
+            rxns.append(Reaction(reac, prod, k, inact_reac=ir, inact_prod=ip))
+        rs = ReactionSystem(rxns, OrderedDict((s, Substance(s)) for s in "CAB"))
+    except Exception:
+        res.outcomes["reorder-construct-raises"] += 1
+        return
+    for step, action in enumerate((None, "sort", "reverse", "sort")):
+        if action == "sort":
+            rs.sort_substances_inplace()
+        elif action == "reverse":
+            rs.sort_substances_inplace(key=lambda kv: -ord(kv[0]))
+        order = list(rs.substances)
+        exp = M.system_rates(rts, ks, conc, order)
+        res.evaluations += 1
+        try:
+            got = list(dCdt_list(rs, list(law_of_mass_action_rates([conc[s] for s in order], rs))))
+        except Exception as e:
+            got = "EXC %s" % type(e).__name__
+        ok = isinstance(got, list) and [int(g) for g in got] == [exp[s] for s in order]
+        res.outcomes["reorder-ok" if ok else "reorder-STALE"] += 1
+        if not ok:
+            res.violation("C03|history|substances-reordered-in-place|array-rates-use-stale-order", "%s ; %s with substances %s (step %d): dCdt_list(law_of_mass_action_rates) = %r, model %r" % (
+                _rt_str(rts[0], "7"), _rt_str(rts[1], "17"), "".join(order), step, got, [exp[s] for s in order]), case, str(got), str([exp[s] for s in order]))
+            return
+
+
 def run_chunk(chunk, tier):
     res = Result()
     t = _tier(tier)
     if chunk[0] == "H":
+        _check_reorder(res, chunk[1])
         for n in (1, 2, 3):
             for seq in itertools.product(range(len(HIST_K)), repeat=n):
                 if all(a != b for a, b in zip(seq, seq[1:])):
@@ -532,7 +576,9 @@ def run_chunk(chunk, tier):
 # ------------------------------------------------------------------------------------------------- replay
 def replay(case):
     res = Result()
-    if case["layer"] == "H":
+    if case["layer"] == "H" and case["seq"] == ["reorder"]:
+        _check_reorder(res, case["i"])
+    elif case["layer"] == "H":
         _check_history(res, case["i"], tuple(case["seq"]))
     elif case["layer"] == "R":
         _check_reaction(res, M.rt_from_json(case["rt"]), case["S"], modes=[(case["kmode"], case["vkind"])])
